@@ -119,8 +119,21 @@ def run(chk, facts):
         loc = facts.loc_of(crc)
         b = crc["body"]
         # outer guard
-        outer = [s for s in b["stmts"] if s.get("k") == "expr" and strip(s["e"]).get("k") == "if"]
-        guard_ok = bool(outer) and src(strip(strip(outer[0]["e"])["c"])) == "env.in_fun"
+        # decided on the enumerated paths (`if env.in_fun { .. }` and `if !env.in_fun { return Ok(()) }` are the same): errors are
+        # returned only when env.in_fun holds, and when it does not the function is Ok without looking
+        from .common import fn_paths
+        g_err_in = g_err_out = g_ok_out = 0
+        for p_ in fn_paths(b):
+            v = p_.holds("env.in_fun")
+            r_ = src(strip(p_.result)).replace(" ", "") if p_.result is not None else ""
+            if r_.startswith("Err("):
+                if v is True:
+                    g_err_in += 1
+                else:
+                    g_err_out += 1
+            elif v is False and r_.startswith("Ok("):
+                g_ok_out += 1
+        guard_ok = g_err_in >= 1 and g_err_out == 0 and g_ok_out >= 1
         chk.ob("R-C08-5", "guard:in_fun", guard_ok, "the check is active exactly inside function bodies (`if env.in_fun`)" if guard_ok else
                "check_raises_caught is no longer guarded by exactly `env.in_fun`", loc)
         hp = [n for n in walk(b) if n.get("k") == "mcall" and n["m"] == "has_parent"]
@@ -143,7 +156,7 @@ def run(chk, facts):
             if n.get("k") == "mcall" and n["m"] == "filter" and strip(n["args"][0]).get("k") == "closure":
                 cl = strip(n["args"][0])
                 params = [p["name"] for q in cl["params"] for p in walk(q) if p.get("k") == "pident"]
-                if src(strip(n["recv"])) in ("raises.iter()",):
+                if src(strip(n["recv"])) in ("raises.iter()", "raises"):
                     raised_param = params[0] if params else None
                     flt = cl
         ok_recv = prov_recv is not None and raised_param is not None and raised_param in prov_recv and "ctx.class(" in prov_recv
@@ -153,8 +166,26 @@ def run(chk, facts):
                f"has_parent is called as `{recv}.has_parent({arg})` with receiver from `{prov_recv}` and argument from `{prov_arg}`: "
                "expected the raised class as receiver and a caught name (any over env.raises_caught) as argument", loc)
         # polarity: the filter keeps the NOT caught ones, which become errors; lookup failure / has_parent error count as not caught
-        body_s = src(strip(flt["body"])).replace(" ", "") if raised_param else ""
-        pol = body_s.startswith("!if") and "else{false}" in body_s and ".unwrap_or_default()" in body_s
+        # (the "caught" test may be written in the filter or as a named closure that the filter negates)
+        caught = [n for n in walk(b) if n.get("k") == "if" and n["c"].get("k") == "let" and "ctx.class(" in src(n["c"]) and any(m is hp[0] for m in walk(n["then"]))]
+        pol = False
+        if raised_param and len(caught) == 1:
+            c_if = caught[0]
+            else_false = c_if.get("else") is not None and src(strip(c_if["else"])).replace(" ", "") in ("false", "{false}")
+            tolerant = ".unwrap_or_default()" in src(c_if["then"]).replace(" ", "")
+            fb = strip(flt["body"])
+            negated = False
+            if fb.get("k") == "unary" and fb["op"] == "!":
+                inner = strip(fb["e"])
+                if inner is c_if or any(m is c_if for m in walk(inner)):
+                    negated = True
+                elif inner.get("k") == "call" and inner["f"].get("k") == "path":
+                    # a local closure: `let is_caught = |name| <c_if>;`
+                    for n in walk(b):
+                        if n.get("k") == "local" and src(n["pat"]) == inner["f"]["p"] and n.get("init") is not None and strip(n["init"]).get("k") == "closure" \
+                                and any(m is c_if for m in walk(n["init"])):
+                            negated = True
+            pol = else_false and tolerant and negated
         chk.ob("R-C08-5", "polarity", pol, "uncaught raises (and unknown classes) are kept by the filter and reported" if pol else
                "the filter of check_raises_caught no longer has the shape `!if let Ok(c) = .. { any(..) } else { false }`", loc)
         errs = any(n.get("k") == "return" and src(n).startswith("return Err(errs") for n in walk(b))
